@@ -123,7 +123,10 @@ Definition run_nseal (key : bytes) (n : N) (ad pt : bytes) := aead_obs (chapoly_
 Definition run_nopen (key : bytes) (n : N) (ad ct : bytes) := aead_obs (chapoly_decrypt_noise P0 key n ad ct).
 Definition run_sha256 (m : bytes) := pure_obs 0 (p_hash P0 m).
 Definition run_hmac (k m : bytes) := pure_obs 0 (p_hmac P0 k m).
-Definition run_hkdf (s i info : bytes) (n : N) := pure_obs 0 (p_hkdf P0 s i info (N.to_nat n)).
+Definition run_hkdf (s i info : bytes) (n : N) :=
+  match hkdf_sha256 P0 s i info (N.to_nat n) with
+  | Ok b => pure_obs 0 b | Err _ => pure_obs 999 [] | Panic _ => pure_obs 1 [] | OutOfFuel => pure_obs 2 []
+  end.
 Definition run_hkdfn (ck ikm : bytes) := let '(a, b) := hkdf_noise P0 ck ikm in pure_obs 0 (a ++ b).
 Definition run_x25519 (k u : bytes) := dh_obs (x25519 P0 k u).
 Definition run_xpub (k : bytes) := dh_obs (x25519_derive_public P0 k).
